@@ -293,6 +293,9 @@ func (w *Worker) account(c *SimCase, st *CaseStats) {
 		if c.RenInfo.Permuted {
 			o.Extra["ren_declarations_permuted"]++
 		}
+		if c.RenInfo.CrossNamespace > 0 {
+			o.Extra["ren_function_spelled_like_type_channel_or_label"]++
+		}
 		if c.RenInfo.FuncsRen > 0 {
 			o.Extra["ren_functions_renamed"]++
 		}
